@@ -58,6 +58,25 @@ CANARIES = [
     ("layout-swapped-index", "src/algo/distance_matrix.rs", "        &self.dist[index.0 * self.order + index.1]", "        &self.dist[index.1 * self.order + index.0]", ["C08", "C18"]),
     ("dm-unchecked-square", "src/algo/distance_matrix.rs", "        let size = order\n            .checked_mul(order)\n            .expect(\"a matrix has at most `usize::MAX` elements\");", "        let size = order * order;", ["C13", "C18"]),
     ("tile-floor-div", AL, None, None, ["C17"]),
+    # round-3 clauses
+    ("haswalk-step-two", AM, "                ptr = ptr.add(1);", "                ptr = ptr.add(2);", ["C02"]),
+    ("bfsdist-yield-before-scan", "src/algo/bfs_dist.rs", "        for v in self.digraph.out_neighbors(u) {\n            assert!(v < order",
+     "        if w_next == order {\n            return Some((u, w));\n        }\n\n        for v in self.digraph.out_neighbors(u) {\n            assert!(v < order", ["C04"]),
+    ("dfspred-skip-roots", "src/algo/dfs_pred.rs", "        for (u, v) in self {", "        let roots = self.stack.len();\n\n        for (u, v) in self.skip(roots) {", ["C06"]),
+    ("fw-prune", "src/algo/floyd_warshall.rs", "                    let s = a + b;", "                    if b > 1_000 {\n                        continue;\n                    }\n\n                    let s = a + b;", ["C08"]),
+    ("matrix-union-word-or", AX, "        for (u, v) in other.arcs() {\n            union.add_arc(u, v);\n        }",
+     "        for (block, other_block) in union.blocks.iter_mut().zip(&other.blocks) {\n            *block |= *other_block;\n        }", ["C11"]),
+    ("matrix-semicomplete-one-word", AX, "                    .all(|v| self.has_arc(u, v) || self.has_arc(v, u))",
+     "                    .all(|v| {\n                        let i = self.index(u, v);\n                        let j = self.index(v, u);\n\n                        self.blocks[i >> 6] & (Self::mask(i) | Self::mask(j)) != 0\n                    })", ["C12"]),
+    ("cycle-wrapping-sub", EL, "once((u + order - 1) % order)", "once(u.wrapping_sub(1) % order)", ["C14"]),
+    ("seed-checked-add", AM, "let thread_seed = seed.wrapping_add(thread_id as u64);", "let thread_seed = seed + thread_id as u64;", ["C15"]),
+    ("center-skip-infinite", "src/algo/distance_matrix.rs", "        for (i, &e) in ecc.enumerate() {\n            match e.cmp(&min) {",
+     "        for (i, &e) in ecc.enumerate() {\n            if e == self.infinity {\n                continue;\n            }\n\n            match e.cmp(&min) {", ["C18"]),
+    ("center-drop-ties", "src/algo/distance_matrix.rs", "                Equal => center.push(i),", "                Equal => (),", ["C18"]),
+    ("center-no-clear", "src/algo/distance_matrix.rs", "                    center.clear();\n                    center.push(i);", "                    center.push(i);", ["C18"]),
+    ("center-min-not-updated", "src/algo/distance_matrix.rs", "                    center.push(i);\n                    min = e;", "                    center.push(i);", ["C18"]),
+    ("search-shortcut", "src/algo/predecessor_tree.rs", "        self.search_by(s, |&v, _| v == t)",
+     "        if s != t && self.pred.get(t) == Some(&Some(s)) {\n            return None;\n        }\n\n        self.search_by(s, |&v, _| v == t)", ["C19"]),
     ("flag-store-true", AL, "                                    result_clone.store(\n                                        false,", "                                    result_clone.store(\n                                        true,", ["C12", "C17"]),
     ("terminate-no-mark", "src/algo/predecessor_tree.rs", "                unsafe {\n                    *visited_ptr.add(v) = true;\n                }\n", "", ["C19"]),
     ("from-rows-no-head-check", AL, '''        for (u, v) in digraph.arcs() {
